@@ -5,6 +5,7 @@ import (
 	"fmt"
 	"testing"
 
+	"github.com/c4pt0r/kvql"
 	"pgregory.net/rapid"
 
 	"verif/lib"
@@ -120,7 +121,46 @@ func checkC13(c *c13Case) (msg string, nontrivial bool, labels []string, ncalls 
 	if len(calls) != c.FailAt+1 {
 		return fmt.Sprintf("statement %q [%s]: storage call %d (%s) failed, yet %d more storage calls followed: %s", q, cfg, c.FailAt, fop, len(calls)-c.FailAt-1, showCalls(calls)), true, labels, ncalls
 	}
+	// round 10: the statement has stopped. A caller that polls the plan once
+	// more (in either form) must not get the write it was told has failed:
+	// no state-changing storage call may follow the failed one. (What a
+	// SELECT reads when polled on past an error is not judged.)
+	if stage != "BuildPlan" && res.Plan != nil && c.Stmt.Kind != "select" {
+		if m := pollPastError(res.Plan, cfg); m != "" {
+			return fmt.Sprintf("statement %q [%s]: polling the plan again after storage call %d (%s) failed: %s", q, cfg, c.FailAt, fop, m), true, labels, ncalls
+		}
+		for _, cl := range in.Calls()[c.FailAt+1:] {
+			if lib.IsMutation(cl.Op) {
+				return fmt.Sprintf("statement %q over %v [%s]: storage call %d (%s) failed and the statement reported it, but polling the plan again issued a state-changing storage call: %s", q, c.Pairs, cfg, c.FailAt, fop, showCalls(in.Calls())), true, labels, ncalls
+			}
+		}
+		labels = append(labels, "polled-past-error")
+	}
 	return "", true, labels, ncalls
+}
+
+// pollPastError polls a plan that has just reported an error: Batch, Next,
+// Batch (a panic is reported, results and errors are not judged).
+func pollPastError(plan kvql.FinalPlan, cfg lib.Cfg) (msg string) {
+	defer func() {
+		if p := recover(); p != nil {
+			msg = fmt.Sprintf("panic: %v", p)
+		}
+	}()
+	lib.SetGlobals(cfg)
+	ctx := kvql.NewExecuteCtx()
+	order := []bool{true, false, true}
+	if cfg.Mode == "row" {
+		order = []bool{false, true, false}
+	}
+	for _, batch := range order {
+		if batch {
+			plan.Batch(ctx)
+		} else {
+			plan.Next(ctx)
+		}
+	}
+	return ""
 }
 
 func genC13Stmt(rt *rapid.T) (*lib.Stmt, []lib.Pair) {
